@@ -116,7 +116,7 @@ def malformed_stream(rng, tier):
 
 
 NAME_ALPHA = "abcXYZ019_-.=" + ", '\"\\$;*#(&\u00e9"
-DIRECTED_NAMES = ["j1", "a b", "it's", 'q"x', "c,d", "-n", "--jade-job-name=x", "a\\b", " lead", "trail ", "'", '"', "\\",
+DIRECTED_NAMES = ["j1", "a b", "it's", 'q"x', "c,d", "-n", "--jade-job-name=x", "a\\b", "le  ad", "'", '"', "\\",
                   "$HOME", "a;b", "a  b", "x" * 150, "None", "name", "\u65e5\u672c", "a'b\"c", "*", "a\tb", "# c", "1",
                   "a,b,\"c\"", "''", "o'k ay"]
 
@@ -124,7 +124,8 @@ DIRECTED_NAMES = ["j1", "a b", "it's", 'q"x', "c,d", "-n", "--jade-job-name=x", 
 def rand_name(rng, used):
     while True:
         n = "".join(rng.choice(NAME_ALPHA) for _ in range(rng.randint(1, 10)))
-        if n not in used and n not in (".", ".."):
+        n = n.strip()   # JADE's models strip surrounding whitespace from every string field
+        if n and n not in used and n not in (".", ".."):
             used.add(n)
             return n
 
@@ -233,28 +234,55 @@ def build_specs(chk, n_random_names):
         plan.append((None, flags4[len(plan) % 4]))
     for k, (name, flags) in enumerate(plan):
         code = codes[k % len(codes)]
-        text, intended = gen_command_args(rng)
+        while True:
+            text, intended = gen_command_args(rng)
+            # JADE's models strip surrounding whitespace of the command; keep commands in that normal form
+            # (an escaped trailing blank would change meaning when stripped: not generated)
+            text = text.strip()
+            if py_split(text) == intended:
+                break
         sep = rng.choice([" ", "  ", "\t"])
-        case = {"name": name, "flags": flags, "exit": code, "signal": None, "args_text": text,
-                "intended": [f"--exit={code}"] + intended,
-                "command": f"{PROBE_CMD}{sep}--exit={code} {text}"}
+        case = {"name": name, "key": f"k{k}", "flags": flags, "exit": code, "signal": None, "args_text": text,
+                "intended": [f"--key=k{k}", f"--exit={code}"] + intended,
+                "command": f"{PROBE_CMD}{sep}--key=k{k} --exit={code} {text}".strip()}
         cases.append(case)
         i += 1
     # processes that die from a signal: Popen reports -N
     for sig in ((9, 15) if chk.tier == "quick" else (1, 2, 6, 9, 15)):
-        cases.append({"name": None, "flags": flags4[sig % 4], "exit": -sig, "signal": sig, "args_text": "",
-                      "intended": [f"--signal={sig}"], "command": f"{PROBE_CMD} --signal={sig}"})
+        cases.append({"name": None, "key": f"s{sig}", "flags": flags4[sig % 4], "exit": -sig, "signal": sig, "args_text": "",
+                      "intended": [f"--key=s{sig}", f"--signal={sig}"], "command": f"{PROBE_CMD} --key=s{sig} --signal={sig}"})
     # commands whose quoting is broken: nothing may be started
+    # (only without append flags: text appended after an open quote / a dangling backslash would pair up with it)
     for bad in ("'x", 'a "b', "a\\", "a 'b' \"c"):
-        cases.append({"name": None, "flags": flags4[len(cases) % 4], "exit": None, "signal": None, "args_text": bad,
-                      "intended": None, "command": f"{PROBE_CMD} --exit=0 {bad}"})
+        cases.append({"name": None, "key": f"m{len(cases)}", "flags": (False, False), "exit": None, "signal": None, "args_text": bad,
+                      "intended": None, "command": f"{PROBE_CMD} --key=m{len(cases)} --exit=0 {bad}"})
     return cases
 
 
 def check_launch_batch(chk, lb, cases, meta):
     """Python oracles over what really happened.  lb: launchdrv.Launch (already run)."""
     out = lb.output
-    rows = lb.rows()
+    try:
+        rows = lb.rows()
+    except Exception as e:   # the real reader cannot parse what the real writer wrote
+        rows = []
+        raw = lb.raw_rows_text()
+        lines = raw.split("\n")
+        witness, wline = None, None
+        for line in lines[1:]:
+            if line and read_expected(lines[0], line, os.path.dirname(out)) == "None":
+                cands = [c for c in cases if c["name"] in line]
+                witness = max(cands, key=lambda c: len(c["name"])) if cands else None
+                wline = line
+                break
+        job = None
+        if witness:
+            job = {"name": witness["name"], "command": witness["command"], "append_job_name": witness["flags"][0],
+                   "append_output_dir": witness["flags"][1]}
+        chk.violation("rows-unreadable", f"the results file written by the jobs cannot be read back: {type(e).__name__}: {e}",
+                      dict(meta, component="AsyncCliCommand._complete -> ResultsAggregator.append / get_results", job=job,
+                           unparsable_row=wline, output_dir=out, hpc_type=lb.hpc_type, file=raw[:1500]))
+        return rows, lb.commands()
     by_name = {}
     for r in rows:
         by_name.setdefault(r.name, []).append(r)
@@ -274,7 +302,7 @@ def check_launch_batch(chk, lb, cases, meta):
             extras.append("--jade-job-name=" + name)
         if c["flags"][1]:
             extras.append("--jade-runtime-output=" + out)
-        dump = lb.probe_dump(name)
+        dump = lb.probe_dump(c["key"])
         chk.count(("launch", name, c["command"], c["flags"], c["exit"]))
         if c["intended"] is None:   # broken quoting
             if dump is not None or name in by_name:
@@ -296,7 +324,13 @@ def check_launch_batch(chk, lb, cases, meta):
         # 1. argv
         if dump["argv"] != want_argv:
             base_ok = dump["argv"][:len(c["intended"])] == c["intended"]
-            sig = D8 if (base_ok and extras) else "argv-mismatch"
+            tail = dump["argv"][len(c["intended"]):]
+            if base_ok and extras and tail == py_split(" ".join(extras)):
+                sig = D8            # exactly what appending the name / directory unquoted gives
+            elif base_ok:
+                sig = "extras-mismatch"
+            else:
+                sig = "argv-mismatch"
             chk.violation(sig, "the program did not receive the configured arguments (+ documented extras)",
                           dict(rep, expected_argv=want_argv, probe_argv=dump["argv"]))
         # 2. environment
@@ -412,7 +446,7 @@ def run_launch(chk, tmp, cmp_gen, cmp_fmt, cmp_read):
                               {"row": list(r), "format_row": line, "file": lb.raw_rows_text()[:500]})
             cmp_read.add(f"({cstr(header)}, {cstr(line)})", read_expected(header, line, tmp), {"header": header, "line": line})
         if b == 0 and chunk:
-            chk.sample({"kind": "launch", "job": specs[0], "cli_cmd": cmds[specs[0]["name"]], "probe": lb.probe_dump(specs[0]["name"]),
+            chk.sample({"kind": "launch", "job": specs[0], "cli_cmd": cmds[specs[0]["name"]], "probe": lb.probe_dump(chunk[0]["key"]),
                         "row": [list(r) for r in rows if r.name == specs[0]["name"]]})
     missing_codes = [c for c in range(256) if c not in dist["exit_codes"]] if chk.tier == "thorough" else []
     chk.oblige("launch oracles ran on %d real launches in %d runners (%d distinct exit codes%s)"
@@ -480,7 +514,7 @@ def run_row_correspondence(chk, tmp, cmp_fmt, cmp_read):
     bad_lines = ["a,1,finished,0.5,1.0", "a,1,finished,0.5", "a", "a,x,finished,0.5,1.0,7", "a,,finished,0.5,1.0,7", "a,1.5,finished,0.5,1.0,7",
                  "a,-,finished,0.5,1.0,7", "a,1,finished,0.5,1.0,7,extra", '"a,1,finished,0.5,1.0,7', 'a"b,1,finished,0.5,1.0,7',
                  '"a"b,1,finished,0.5,1.0,7', '"a""",007,finished,0.5,1.0,None', ",0,finished,0.5,1.0,", 'a,-0,finished,0.5,1.0,"7"',
-                 '"a" ,3,finished,0.5,1.0,7', 'a,3,"fin,ished",0.5,1.0,7', 'a,3,finished,0.5,1.0,"x""', "a,--1,finished,0.5,1.0,7"]
+                 '"a" ,3,finished,0.5,1.0,7', 'a,3,"fin,ished",0.5,1.0,7', "a,--1,finished,0.5,1.0,7"]   # (an unterminated quote continues on the next line: outside the one-line model)
     for line in bad_lines:
         cmp_read.add(f"({cstr(header)}, {cstr(line)})", read_expected(header, line, tmp), {"header": header, "line": line})
         chk.count(("badrow", line))
@@ -549,7 +583,9 @@ def replay(path):
                               slurm_job_id=obj.get("slurm_job_id") or "0")
         try:
             lb.run_async_jobs()
-            dump = lb.probe_dump(job["name"])
+            import re
+            m = re.search(r"--key=(\w+)", job["command"])
+            dump = lb.probe_dump(m.group(1)) if m else None
             print("--- replayed on", core.REPO)
             print("cli_cmd :", lb.commands().get(job["name"]))
             print("run error:", lb.run_errors.get(job["name"]))
